@@ -273,8 +273,14 @@ func dnsScenarioC18(w *dnsWorld) {
 				c.sniffed = ""
 			case 2:
 				c.sniffed = "198.51.100.77"
+				if len(w.names)%2 == 1 { // no new draw: the variant follows the number of names of the run
+					c.sniffed = "198.51.100.77:8443" // literal that already carries a port
+				}
 			case 3:
 				c.sniffed = "[2001:db8::77]"
+				if len(w.names)%2 == 1 {
+					c.sniffed = "[2001:db8::77]:8443" // bracketed literal that already carries a port
+				}
 			case 4:
 				c.sniffed = "2001:db8::77"
 			case 5:
